@@ -89,9 +89,72 @@ def gen_link_scenario(rng, sid, seed=None):
     return ("SIM", sid, lines), feat, seed
 
 
+def gen_timer_scenario(rng, sid, seed=None):
+    """timer-API-heavy scripts: 1-2 nodes, 2 processes, 1-2 timer names, every row is a short sequence of
+    set_timer / set_timer_once / cancel_timer on overlapping names (several operations on one name inside one handler
+    call, with a timer of that name possibly pending from an earlier call), high caps, many inputs and partial steps"""
+    nnodes = rng.choice([1, 2])
+    nprocs = 2
+    nnames = rng.choice([1, 1, 2])
+    seed = seed if seed is not None else rng.randrange(1, 1 << 20)
+    feat = {"timers": True, "override": True, "clock": False, "rand_progs": False, "drop": 0.0, "dupl": 0.0, "corrupt": 0.0,
+            "rand_delay": False, "crash": rng.random() < 0.2, "netops": False, "skew": False, "links": False, "timer_stress": True}
+    lines = ["SEED %d" % seed]
+    placement = [rng.randrange(nnodes) for _ in range(nprocs)]
+    def top():
+        r = rng.random()
+        nm = rng.randrange(nnames)
+        if r < 0.35:
+            return "T %d %d 0" % (nm, f64_bits(rng.choice([0.5, 1.0, 2.0, 3.0])))
+        if r < 0.7:
+            return "T %d %d 1" % (nm, f64_bits(rng.choice([0.5, 1.0, 2.0, 3.0])))
+        return "C %d" % nm
+    for p in range(nprocs):
+        nrows = rng.choice([2, 3, 4])
+        lines.append("PROG %d %d 0 0 %d" % (p, rng.choice([5, 6, 8]), nrows))
+        for _ in range(nrows):
+            k = rng.choice([1, 2, 2, 3, 3, 4])
+            acts = [top() for _ in range(k)]
+            if rng.random() < 0.3:
+                acts.append("S %d %s" % (rng.randrange(nprocs), gen_mc.gen_msg(rng)))
+            lines.append("ROW %d %d %s" % (p, len(acts), " ".join(acts)))
+    lines.append("DRAWS")
+    for n in range(nnodes):
+        lines.append("OP ADDNODE %d" % n)
+    for p in range(nprocs):
+        lines.append("OP ADDPROC %d %d" % (p, placement[p]))
+    crashed = set()
+    for _ in range(rng.randint(10, 24)):
+        r = rng.random()
+        live = [p for p in range(nprocs) if placement[p] not in crashed]
+        if r < 0.45 and live:
+            lines.append("OP LOCAL %d %s" % (rng.choice(live), gen_mc.gen_msg(rng, small=False)))
+        elif r < 0.75:
+            lines.append("OP STEP")
+        elif r < 0.85:
+            lines.append("OP DURATION %d" % f64_bits(rng.choice([0.25, 0.5, 1.0])))
+        elif r < 0.92 and feat["crash"]:
+            if crashed:
+                nd = crashed.pop()
+                lines.append("OP RECOVER %d" % nd)
+                for p in range(nprocs):
+                    if placement[p] == nd:
+                        lines.append("OP ADDPROC %d %d" % (p, nd))
+            else:
+                nd = rng.randrange(nnodes)
+                crashed.add(nd)
+                lines.append("OP CRASH %d" % nd)
+        else:
+            lines.append("OP STEPS %d" % rng.choice([1, 2, 3]))
+    lines.append("OP UNTILNOEVENTS")
+    return ("SIM", sid, lines), feat, seed
+
+
 def gen_scenario(rng, sid, feat=None, nops=None, seed=None):
     if feat is None and rng.random() < 0.2:
         return gen_link_scenario(rng, sid, seed)
+    if feat is None and rng.random() < 0.18:
+        return gen_timer_scenario(rng, sid, seed)
     feat = feat or gen_features(rng)
     nnodes = rng.choice([1, 2, 2, 3])
     nprocs = rng.choice([2, 2, 3])
